@@ -274,7 +274,7 @@ func (run *simRun) setup() {
 		return
 	}
 	simioutil.ResetTemp()
-	n := run.cfg.Voters + run.cfg.Nonvoters
+	n := run.cfg.Voters + run.cfg.Nonvoters + run.cfg.Spares
 	for i := 1; i <= n; i++ {
 		node := &simNode{id: uint64(i), addr: nodeAddr(uint64(i))}
 		node.dir = filepath.Join(run.baseDir, fmt.Sprintf("n%d-0", i))
@@ -283,7 +283,7 @@ func (run *simRun) setup() {
 	}
 	boot := run.bootConfig()
 	for i, node := range run.nodes {
-		if run.cfg.Preseed && i > 0 {
+		if run.cfg.Preseed && i > 0 && i < run.cfg.Voters+run.cfg.Nonvoters {
 			// identical bootstrap entry everywhere: copy the first node's storage, then give it its own identity
 			if err := copyDir(run.nodes[0].dir, node.dir); err != nil {
 				run.infra = "preseed copy: " + err.Error()
@@ -829,25 +829,28 @@ func firstLine(s string) string {
 	return s
 }
 
-// panicSite extracts the innermost application frame (function name) of a stack.
+// panicSite extracts the innermost frame of the code under test below the
+// original panic (function name without arguments).
 func panicSite(stack string) string {
 	lines := strings.Split(stack, "\n")
-	seenPanic := false
-	for _, l := range lines {
+	lastPanic := -1
+	for i, l := range lines {
 		if strings.HasPrefix(l, "panic(") {
-			seenPanic = true
+			lastPanic = i
+		}
+	}
+	for i := lastPanic + 1; i < len(lines); i++ {
+		l := lines[i]
+		if strings.HasPrefix(l, "\t") || !strings.Contains(l, "santhosh-tekuri/raft") {
 			continue
 		}
-		if !seenPanic || strings.HasPrefix(l, "\t") || strings.HasPrefix(l, "runtime.") || strings.HasPrefix(l, "runtime/") {
-			continue
-		}
-		if i := strings.IndexByte(l, '('); i > 0 {
-			l = l[:i]
+		if j := strings.LastIndexByte(l, '('); j > 0 {
+			l = l[:j]
 		}
 		if j := strings.LastIndexByte(l, '/'); j >= 0 {
 			l = l[j+1:]
 		}
-		if strings.Contains(l, "recoverErr") || strings.Contains(l, ".func") && strings.Contains(l, "stateLoop") {
+		if strings.Contains(l, "recoverErr") {
 			continue
 		}
 		return l
